@@ -81,6 +81,20 @@ func (idx Index) getQuery(keyPrefix []byte) []byte {
 	return b
 }
 
+// prefixEnd returns the smallest key that is greater than every key having
+// the prefix. The prefix must contain at least one byte other than 0xFF, which
+// holds for query prefixes as they start with the index name.
+func prefixEnd(prefix []byte) []byte {
+	end := append([]byte(nil), prefix...)
+	for i := len(end) - 1; i >= 0; i-- {
+		if end[i] < 0xFF {
+			end[i]++
+			return end[:i+1]
+		}
+	}
+	return end
+}
+
 // FetchCollection fetches a collection of resource references based on the query.
 func (iq *IndexQuery) FetchCollection(db *badger.DB) ([]string, error) {
 	offset := iq.Offset
@@ -116,12 +130,17 @@ func (iq *IndexQuery) FetchCollection(db *badger.DB) ([]string, error) {
 		it := txn.NewIterator(opts)
 		defer it.Close()
 		// When iterating in reverse, seek starts at the last key less than or
-		// equal to the seek key: start just past the keys with the prefix.
-		seekKey := queryPrefix
+		// equal to the seek key: start at the first key past all keys with the
+		// prefix, and step over it in case that exact key exists.
 		if iq.Reverse {
-			seekKey = append(append(make([]byte, 0, qplen+1), queryPrefix...), 0xFF)
+			it.Seek(prefixEnd(queryPrefix))
+			if it.Valid() && !bytes.HasPrefix(it.Item().Key(), queryPrefix) {
+				it.Next()
+			}
+		} else {
+			it.Seek(queryPrefix)
 		}
-		for it.Seek(seekKey); it.ValidForPrefix(queryPrefix); it.Next() {
+		for ; it.ValidForPrefix(queryPrefix); it.Next() {
 			k := it.Item().Key()
 			idx := bytes.LastIndexByte(k, idSeparator)
 			if idx < 0 {
